@@ -95,14 +95,14 @@ func invalidClass(class string) (add []CfgSetting, drop []string, ok bool) {
 		return []CfgSetting{st("allow_unauthenticated_reads", "allow_unauthenticated_reads", "BAZEL_REMOTE_UNAUTHENTICATED_READS", y("allow_unauthenticated_reads"), "bool", "true")}, []string{"htpasswd_file", "ldap.url", "ldap.base_dn", "ldap.cache_time", "ldap.username_attribute"}, true
 	case "two_proxies_http_s3":
 		return []CfgSetting{st("http_proxy.url", "http_proxy.url", "BAZEL_REMOTE_HTTP_PROXY_URL", y("http_proxy", "url"), "string", "http://b.example/"),
-			st("s3.bucket", "s3.bucket", "BAZEL_REMOTE_S3_BUCKET", y("s3_proxy", "bucket"), "string", "bkt"),
-			st("s3.auth_method", "s3.auth_method", "BAZEL_REMOTE_S3_AUTH_METHOD", y("s3_proxy", "auth_method"), "string", "access_key"),
-			st("s3.endpoint", "s3.endpoint", "BAZEL_REMOTE_S3_ENDPOINT", y("s3_proxy", "endpoint"), "string", "s3.example:9000")},
+				st("s3.bucket", "s3.bucket", "BAZEL_REMOTE_S3_BUCKET", y("s3_proxy", "bucket"), "string", "bkt"),
+				st("s3.auth_method", "s3.auth_method", "BAZEL_REMOTE_S3_AUTH_METHOD", y("s3_proxy", "auth_method"), "string", "access_key"),
+				st("s3.endpoint", "s3.endpoint", "BAZEL_REMOTE_S3_ENDPOINT", y("s3_proxy", "endpoint"), "string", "s3.example:9000")},
 			[]string{"http_proxy.url", "http_proxy.ca_file", "s3.bucket", "s3.auth_method", "s3.endpoint", "grpc_proxy.url", "gcs_proxy.bucket", "gcs_proxy.use_default_credentials",
 				"azblob.storage_account", "azblob.tenant_id", "azblob.container_name", "azblob.auth_method", "azblob.shared_key", "azblob.prefix"}, true
 	case "two_proxies_grpc_gcs":
 		return []CfgSetting{st("grpc_proxy.url", "grpc_proxy.url", "BAZEL_REMOTE_GRPC_PROXY_URL", y("grpc_proxy", "url"), "string", "grpc://b.example:9092"),
-			st("gcs_proxy.bucket", "gcs_proxy.bucket", "BAZEL_REMOTE_GCS_BUCKET", y("gcs_proxy", "bucket"), "string", "bkt")},
+				st("gcs_proxy.bucket", "gcs_proxy.bucket", "BAZEL_REMOTE_GCS_BUCKET", y("gcs_proxy", "bucket"), "string", "bkt")},
 			[]string{"http_proxy.url", "http_proxy.ca_file", "s3.bucket", "s3.auth_method", "s3.endpoint", "s3.prefix", "s3.region", "grpc_proxy.url", "gcs_proxy.bucket",
 				"azblob.storage_account", "azblob.tenant_id", "azblob.container_name", "azblob.auth_method", "azblob.shared_key", "azblob.prefix"}, true
 	case "two_proxies_s3_azblob", "two_proxies_http_azblob", "two_proxies_grpc_azblob", "two_proxies_gcs_azblob", "azblob_without_container", "azblob_bad_auth_method":
